@@ -1104,14 +1104,14 @@ def run(ctx):
         check_hol_batch(ctx, env, congc, [[tup(o) for o in hops] for hops in corpus["hol"]])
     # raw stream
     rng = ctx.rng("raw")
-    seqs = [gen_raw_seq(rng) for _ in range(ctx.scale(5000, 40000))]
+    seqs = [gen_raw_seq(rng) for _ in range(ctx.scale(4000, 40000))]
     for s in seqs[:2]:
         ctx.sample({"raw": s})
     have_model &= check_core_batch(ctx, congc, seqs, "raw", env)
     ctx.log("raw stream done")
     # term stream
     rng = ctx.rng("term")
-    hseqs = [gen_term_seq(rng) for _ in range(ctx.scale(4000, 30000))]
+    hseqs = [gen_term_seq(rng) for _ in range(ctx.scale(3000, 30000))]
     for h in hseqs[:2]:
         ctx.sample({"term": hops_json(h)})
     have_model &= check_core_batch(ctx, congc, [flatten_all(h)[0].ops for h in hseqs], "term", env)
